@@ -425,6 +425,27 @@ def _(c):
     return _ro(c, build)
 
 
+@conic("ro-ball-2rows-exp")
+def _(c):
+    # two robust rows: two second-order cones over separate slices of the multipliers, other columns in between,
+    # exp-cone auxiliaries after them (the cone blocks of the primal are NOT contiguous)
+    def build(c, m, x, z):
+        r = c.fresh_real("r")
+        m.st(((x * z).sum() <= c.fresh_real("e")).forall(rsome.norm(z, 2) <= r))
+        m.st(((x[0] * z[1] - x[1] * z[0]) + x[1] <= c.fresh_real("f")).forall(rsome.norm(z, 2) <= r))
+        m.st(rsome.exp(x[0]) <= c.fresh_real("g"))
+    return _ro(c, build)
+
+
+@conic("ro-ball-array-exp-first")
+def _(c):
+    def build(c, m, x, z):
+        m.st(rsome.exp(-x[1]) <= c.fresh_real("g"))
+        m.st((x * z + x[0] <= c.fresh_real("e")).forall(rsome.norm(z, 2) <= c.fresh_real("r")))
+        m.st(rsome.log(x[0] + 3) >= c.fresh_real("h"))
+    return _ro(c, build)
+
+
 @conic("ro-kl")
 def _(c):
     def build(c, m, x, z):
